@@ -84,7 +84,7 @@ class T4TCard(object):
     def __init__(self, kind="A", fsci=8, fwi=4, sfgi=0, ats=None, ats_opts=None, sensb_res=None, attrib_res=b"\x00",
                  uid=None, apps=("v2",), files=None, access=None, mle=255, mlc=255, eof="6282", select_fci=None,
                  resp_chunk=None, ext_apdu=True, odo=True, strict_fsc=False, le_less_read="6700", ext_atqb=False,
-                 upd_limit=None, upd_beyond="std"):
+                 upd_limit=None, upd_beyond="std", p1b8="6A82", sfi=None, read_cap=None, read_page=None):
         self.kind = kind
         self.brty = "106" + kind
         self.fsci, self.fwi, self.sfgi = fsci, fwi, sfgi
@@ -114,6 +114,16 @@ class T4TCard(object):
         # behind the end and 6700 when offset + Lc reaches behind it; or a fixed "6A84" / "6B00" / "6700" as seen on products
         self.upd_limit = dict(upd_limit or {})
         self.upd_beyond = upd_beyond
+        # READ/UPDATE BINARY (B0/D6) with bit 8 of P1 set.  ISO/IEC 7816-4: bits 8..6 of P1 = 100 -> bits 5..1 are a short EF
+        # identifier (0 = the current EF, otherwise the EF becomes the current one) and P2 is the offset (0..255), so only
+        # offsets 0000h..7FFFh of a file can be expressed in P1-P2.  p1b8: "sfi" = that rule (self.sfi: short id -> fid),
+        # "6A82" = the card knows no short identifiers (file not found), "6B00" = wrong parameters P1-P2,
+        # "offset" = a card that takes P1-P2 as a 16 bit offset (not ISO, seen on products)
+        self.p1b8 = p1b8
+        self.sfi = {int(k): v for k, v in (sfi or {}).items()}
+        # short reads: a card may return fewer bytes than Le (Le is an upper bound).  read_cap: at most that many bytes per
+        # READ BINARY; read_page: a READ BINARY never crosses a multiple of read_page (page-wise memory access)
+        self.read_cap, self.read_page = read_cap, read_page
         # hooks
         self.responder = None      # callable(apdu) -> response bytes | None (fall through to the file system)
         self.apdu_script = None    # callable(n, apdu) -> response bytes | "mute" | None   (n-th executed APDU)
@@ -132,6 +142,8 @@ class T4TCard(object):
     def reset_logs(self):
         self.apdu_log = []       # (apdu, response | None)
         self.read_log = []       # (fid, offset, n) of served READ BINARY
+        self.short_served = 0    # READ BINARY answered 9000 with fewer bytes than Le although the file holds more
+        self.p1b8_reads = []     # (P1, offset used | None, status) of every READ BINARY (B0) received with bit 8 of P1 set
         self.write_log = []      # (fid, offset, data) of applied UPDATE BINARY
         self.update_cmds = []    # (selected fid, offset, lc, status) of every UPDATE BINARY seen
         self.blocks = {"I": 0, "I_chain": 0, "RACK": 0, "RNAK": 0, "SWTX": 0, "SDESEL": 0, "ignored": 0,
@@ -416,6 +428,17 @@ class T4TCard(object):
             return b"", 0x6B00
         part = bytes(f[off:off + ne])
         sw = 0x9000
+        short = ne
+        if self.read_cap:
+            short = min(short, self.read_cap)
+        if self.read_page:
+            short = min(short, self.read_page - off % self.read_page)
+        if short < ne and len(part) >= short:
+            # fewer bytes than Le although the file holds more: plain 9000 (the reader asks again for the rest)
+            part = part[:short]
+            self.short_served += 1
+            self.read_log.append((self.sel_file, off, len(part)))
+            return part, sw
         if len(part) < ne:
             if self.eof == "6700":
                 return b"", 0x6700
@@ -425,12 +448,32 @@ class T4TCard(object):
         self.read_log.append((self.sel_file, off, len(part)))
         return part, sw
 
+    def _p1b8(self, p1, p2):
+        """bit 8 of P1 set -> (offset, None) or (None, status word)"""
+        if self.p1b8 == "offset":
+            return p1 << 8 | p2, None
+        if self.p1b8 == "sfi":
+            if p1 & 0x60:
+                return None, 0x6A86
+            sid = p1 & 0x1F
+            if sid:
+                if self.sel_app is None or self.sfi.get(sid) not in self.files:
+                    return None, 0x6A82
+                self.sel_file = self.sfi[sid]
+            return p2, None
+        return None, int(self.p1b8, 16)             # default 6A82: short EF identifier addressing, no such file
+
     def _read_binary(self, off, p1, le):
         if p1 & 0x80:
-            return b"\x6A\x82"                      # short EF identifier addressing: no such file
+            off, sw = self._p1b8(p1, off & 0xFF)
+            if sw is not None:
+                self.p1b8_reads.append((p1, None, sw))
+                return struct.pack(">H", sw)
         if le is None:
             return b"\x67\x00" if self.le_less_read == "6700" else b"\x90\x00"
         part, sw = self._read(off, le)
+        if p1 & 0x80:
+            self.p1b8_reads.append((p1, off, sw))
         return part + struct.pack(">H", sw)
 
     def _update(self, off, data):
@@ -453,12 +496,16 @@ class T4TCard(object):
         return 0x9000
 
     def _update_binary(self, off, p1, lc, data):
+        woff = off
+        sw = None
         if p1 & 0x80:
-            sw = 0x6A82
+            woff, sw = self._p1b8(p1, off & 0xFF)
+        if sw is not None:
+            pass
         elif lc is None:
             sw = 0x6700
         else:
-            sw = self._update(off, data)
+            sw = self._update(woff, data)
         self.update_cmds.append((self.sel_file, off, lc, sw))
         return sw
 
